@@ -17,6 +17,7 @@ import Gv.Proofs.PartitionOutcome
 import Gv.Proofs.PhylipHeader
 import Gv.Proofs.NexusHeader
 import Gv.Proofs.PhylipMulti
+import Gv.Proofs.Utf8Norm
 /-!
 C03 — parsers terminate on every input with an error or a well-formed result.
 
@@ -915,5 +916,47 @@ set_option maxRecDepth 100000 in
 example : (match Nexus.topLoop ⟨true, true, true, true, true, true, true⟩ ((Nexus.sIW nexusSample).2.length + 3) (Nexus.sIW nexusSample).2 {} with
     | .ok top => top.data.map fun d => (d.ntax, d.nchar)
     | _ => none) = some (2, 3) := by decide
+
+/-! ## ALL byte strings: the lexers read runes (`Model/Fmt/Utf8.lean`)
+
+The parsers `X.parse` above work on the bytes the lexer holds after `ReadRune` / `WriteRune`; `X.parseBytes` is the
+parser on the RAW input (`X.parse ∘ Utf8.norm`, plus the places where runes are counted or case-mapped again).  The
+theorems above quantify over all byte strings already, so each of them holds for `parseBytes` as well: the statements
+below are the C03 clauses for the raw input, without any ASCII restriction. -/
+
+/-- on an ASCII input the raw-input parser is the ASCII model -/
+theorem fasta_parseBytes_ascii (fix : Bool) (o : POpts) (bs : List Byte) (h : allAscii bs = true) :
+    Fasta.parseBytes fix o bs = Fasta.parse fix o bs := by
+  unfold Fasta.parseBytes; rw [Gv.Proofs.Utf8Norm.norm_of_ascii bs h]
+
+/-- **FASTA on the raw input, code as it is** (also with the patch), ALL byte strings (bytes ≥ 128 included) and all
+options: never `panic` / `hang` / `exit`; a success is rectangular IN BYTES AS WRITTEN with the reported length, names
+pairwise distinct, at least one column when it has a row; zero rows only for the empty-record shape of what the lexer
+read. -/
+theorem fasta_outcome_bytes_partial (fix : Bool) (o : POpts) (bs : List Byte) :
+    match Fasta.parseBytes fix o bs with
+    | .ok a => (∀ r ∈ a.rows, (r.2.length : Int) = a.length) ∧
+               Spec.Fmt.distinct (a.rows.map (·.1)) = true ∧
+               (a.rows ≠ [] → 1 ≤ a.length) ∧
+               (a.rows = [] → a.length = -1 ∧ EmptyRecords (Utf8.norm bs))
+    | .error => True
+    | .exit | .panic | .hang => False :=
+  fasta_outcome_partial fix o (Utf8.norm bs)
+
+/-- **FASTA on the raw input with the empty-result check**: the full C03 statement for ALL byte strings (bytes ≥ 128
+included) and all options. -/
+theorem fasta_outcome_bytes (o : POpts) (bs : List Byte) : Good (Fasta.parseBytes true o bs) :=
+  fasta_outcome_fixed o (Utf8.norm bs)
+
+/-- non-vacuity: `>a\nAC\xff\n>b\nAC€\n` succeeds with two rows of FIVE bytes (`\xff` is written back as `EF BF BD`) -/
+example : Fasta.parseBytes true {} [62, 97, 10, 65, 67, 0xFF, 10, 62, 98, 10, 65, 67, 0xE2, 0x82, 0xAC, 10] =
+    .ok ⟨3, 5, [([97], [65, 67, 0xEF, 0xBF, 0xBD]), ([98], [65, 67, 0xE2, 0x82, 0xAC])]⟩ := by
+  have h : Utf8.norm [62, 97, 10, 65, 67, 0xFF, 10, 62, 98, 10, 65, 67, 0xE2, 0x82, 0xAC, 10] =
+      [62, 97, 10, 65, 67, 0xEF, 0xBF, 0xBD, 10, 62, 98, 10, 65, 67, 0xE2, 0x82, 0xAC, 10] := by decide
+  unfold Fasta.parseBytes; rw [h]
+  simp [Fasta.parse, Fasta.parseBag, Fasta.lex, Fasta.scan, Fasta.skipEol, Fasta.loop, Fasta.body,
+    Fasta.isEOL, Fasta.identChar, Fasta.afterRun, Fasta.GT, NL, CR, Fasta.stripSpaces, Fasta.noSpaces, SP,
+    Bag.add, Bag.find]
+  decide
 
 end Gv.Props.C03
